@@ -13,12 +13,15 @@ spec reads every handle through `ordOf` = the driver's `St.ordinal` (latest ordi
   component record (`absEnt`) and the same shared components *as a finite map* (`lookupS`; the spec keeps them in
   order of assignment, the model sorted by type id), equal dependency tables / depth / thread count, pointwise
   related buffered commands, and marked sets that agree on what `update` will act on.
-* `Inv c` — the invariants of C01 (id table, with ghost), C02 (rows), C12 (pool), C13 (masks closed), plus what the
-  buffers and the marked set may mention.
+* `Inv c` — the invariants of C01 (id table, with ghost), C02 (rows), C12 (pool), the bounded dependency table, plus
+  what the buffers and the marked set may mention.  There is NO closedness invariant: an archetype may predate the
+  declaration of a dependency of one of its components ("late declaration on a held master"), model and spec agree
+  on every such history.
 * `Bounds c` — the range side conditions of DESIGN.md 3.2 (fewer than 2^30-1 ids, no version wrapped).
 * `OpWf c op` — the contract of the operation (thread id in range; unlocked structural operations on valid
   entities with the components absent; locked operations on handles that were issued; `clearArch` only on
-  shared-free archetypes; late `dep` declarations that keep every archetype closed; builders name a component once).
+  shared-free archetypes; `dep` declarations whose required components have ids below 128 — late declarations are
+  otherwise unrestricted, whatever the existing archetypes hold; builders name a component once).
 
 `step_refines` covers EVERY operation, including the outermost `unlock` (the whole flush: the pack fold of
 `WM.applyPack` against the command-by-command `WS.applyCmd`); callbacks agree as multisets, for `unlock` by the
@@ -92,5 +95,19 @@ example : AllAgree exInfo (CW.init 0 3) (specInit 3) exHistory :=
 /-- the recycled creation really recycles: the handle issued fourth has the id of the first, version 1 -/
 example : (runBoth exInfo (CW.init 0 3) (specInit 3) exHistory).1.issued =
     [⟨0, 0, 0⟩, ⟨1, 0, 0⟩, ⟨2, 0, 0⟩, ⟨0, 1, 0⟩, ⟨3, 0, 0⟩] := by decide
+
+/-- a history with a LATE dependency declaration on a held master (`exLateHistory`: the archetype `[0]` exists when
+`0 → 1` is declared) is within the contract, so `run_refines` applies to it: every result agrees, and the final
+states are related -/
+example : AllAgree exInfo (CW.init 0 1) (specInit 1) exLateHistory :=
+  (run_refines exInfo 0 1 exLateHistory (wfRun_of_check exInfo exLateHistory _ (by decide))).2.2
+
+example :
+    Rel (runBoth exInfo (CW.init 0 1) (specInit 1) exLateHistory).1 (runBoth exInfo (CW.init 0 1) (specInit 1) exLateHistory).2 :=
+  relB_sound (by decide)
+
+/-- … and the late declaration really left an unclosed archetype behind: the archetypes at the end are `[0]` (the one
+the entity was created in) and `[0, 1]` (the one `assignShared` moved it to) -/
+example : (runBoth exInfo (CW.init 0 1) (specInit 1) exLateHistory).1.w.archs.map (·.mask) = [[0], [0, 1]] := by decide
 
 end Mustache.Props.Refinement
